@@ -260,3 +260,58 @@ fn c13_bad_pawns_mirror() {
 fn c13_king_edge_mirror() {
     term_mirror(evaluate_force_king_to_edge::evaluate)
 }
+
+// ---- the square-table term of a whole position: a sum with one summand per own piece --------------------------------------
+
+static mut PS_SPIKE: [u64; 4] = [0; 4]; // kind, square, perspective (0 white / 1 black) | weight bits << 8, value
+
+/// abstract per-piece score: X at one symbolic (kind, square, perspective, weight), 0 elsewhere
+fn stub_piece_square(piece: Piece, square: Square, perspective: &Color, end_game_weight: f32) -> Evaluation {
+    let z = unsafe { PS_SPIKE };
+    let k: u8 = piece.into();
+    let s: u8 = square.into();
+    let persp = if *perspective == Color::White { 0u64 } else { 1u64 };
+    if k as u64 == z[0] && s as u64 == z[1] && (persp | ((end_game_weight.to_bits() as u64) << 8)) == z[2] {
+        Evaluation(z[3] as i32)
+    } else {
+        Evaluation(0)
+    }
+}
+
+/// evaluate_piece_squares::evaluate adds, for every own piece (<= 3 per kind here), exactly the per-piece score of (its
+/// kind, its square, the perspective, the position's game-phase weight), once, and nothing else: with the per-piece score
+/// X at one symbolic argument tuple and 0 elsewhere the term is X exactly when that piece stands on that square.  So the
+/// term is the SUM over the own pieces of evaluate_piece_square; with c13_piece_square_mirror (each summand is
+/// mirror-invariant) and c13_variation_mirror (so is the weight) the term of the mirrored position is the same sum over the
+/// mirrored pieces (i32 addition is commutative; |sum| <= 32 * 50, no overflow).
+#[kani::proof]
+#[kani::unwind(8)]
+#[kani::stub(evaluate_piece_squares::evaluate_piece_square, stub_piece_square)]
+fn c13_piece_squares_is_a_sum_over_pieces() {
+    unsafe {
+        PS_SPIKE = kani::any();
+        kani::assume((PS_SPIKE[3] as i32) > -100_000 && (PS_SPIKE[3] as i32) < 100_000);
+    }
+    let p = any_disjoint_boards();
+    let persp = if kani::any() { Color::White } else { Color::Black };
+    let base = if persp == Color::White { 0 } else { 8 };
+    kani::assume(
+        p[base + 1].count_ones() <= 3 && p[base + 2].count_ones() <= 3 && p[base + 3].count_ones() <= 3
+            && p[base + 4].count_ones() <= 3 && p[base + 5].count_ones() <= 3 && p[base + 6].count_ones() <= 3,
+    );
+    let state = mk_state(&p, if kani::any() { Color::White } else { Color::Black });
+    let v = StateVariation::from(&state);
+    let e0: i32 = kani::any();
+    kani::assume(e0 > -100_000 && e0 < 100_000);
+    let mut eval = Evaluation(e0);
+    let mut stop = false;
+    evaluate_piece_squares::evaluate(&v, &persp, &mut eval, &mut stop);
+    let z = unsafe { PS_SPIKE };
+    let persp_bits = (if persp == Color::White { 0u64 } else { 1u64 }) | ((v.end_game_weight.to_bits() as u64) << 8);
+    let hit = z[0] >= 1 && z[0] <= 6 && z[1] < 64 && z[2] == persp_bits && (p[base + z[0] as usize] >> z[1]) & 1 == 1;
+    let got: i32 = eval.into();
+    assert!(got == e0 + if hit { z[3] as i32 } else { 0 });
+    assert!(!stop);
+    kani::cover!(hit && z[3] as i32 != 0, "spike hit reachable");
+    kani::cover!(!hit, "miss reachable");
+}
